@@ -19,6 +19,17 @@ Theorem C27_fifo_per_caller : forall c s t, reach c s ->
   StronglySorted lt (map snd (of_caller t (delivered s))).
 Proof. exact fifo. Qed.
 
+(* The same holds for everything that leaves the coalescer (delivered or handed to the error handler), and
+   globally: what the transport delivered is an order-preserving subsequence of the acceptance order. *)
+Theorem C27_fifo_per_caller_all_flushed : forall c s t, reach c s ->
+  StronglySorted lt (map snd (of_caller t (handled s))).
+Proof. exact fifo_handled. Qed.
+
+Theorem C27_delivered_in_acceptance_order : forall c s, reach c s -> subseq (delivered s) (enq s).
+Proof.
+  intros c s H. eapply subseq_trans; [apply delivered_subseq_handled | apply (handled_subseq_enq c s H)].
+Qed.
+
 (* No message is delivered twice, dead-lettered twice, or both delivered and dead-lettered. *)
 Theorem C27_at_most_once : forall c s, reach c s -> NoDup (delivered s ++ errored s).
 Proof. exact at_most_once. Qed.
@@ -52,6 +63,8 @@ Proof. exact late_submit_refuted. Qed.
 
 Print Assumptions C27_conservation.
 Print Assumptions C27_fifo_per_caller.
+Print Assumptions C27_fifo_per_caller_all_flushed.
+Print Assumptions C27_delivered_in_acceptance_order.
 Print Assumptions C27_at_most_once.
 Print Assumptions C27_only_accepted.
 Print Assumptions C27_accepted_somewhere.
